@@ -476,6 +476,10 @@ func (p *c15) Run(rec *core.Recorder, seed uint64, idx int, tier string) {
 				continue
 			}
 			src := newVer(name, "REG")
+			if ent := cached[name]; ent != nil && r.P(1, 4) {
+				// register the very text that is cached already: still a registration, the name now belongs to no loader
+				src = ent.version
+			}
 			var err error
 			switch r.Intn(3) {
 			case 0:
